@@ -55,7 +55,7 @@ def one_case(ctx, rng, wd, K=None, force=None):
     K = K or int(rng.choice([1, 2, 2, 3, 3, 4, 4, 5, 5, 6]))
     frames = int(rng.choice([1, 1, 2, 4]))
     retype = bool(frames > 1 and rng.random() < 0.35)
-    snaps, inf, cell = gc.static_system(rng, K=K, frames=frames, nmin=max(2, K), nmax=70 if not ctx.thorough else 110, retype=retype)
+    snaps, inf, cell = gc.static_system(rng, K=K, frames=frames, nmin=max(2, K), nmax=70 if not ctx.thorough else 110, retype=retype, vary_tilt=True)
     d = inf["d"]
     ppp = gc.random_mask(rng, d)
     Lmin = float(np.min(np.diag(cell["H"])))
@@ -68,14 +68,14 @@ def one_case(ctx, rng, wd, K=None, force=None):
     Kreal = len(np.unique(types))
     outfile = os.path.join(wd, "gr.csv") if rng.random() < 0.3 else None
     info = lambda: {"d": d, "N": inf["N"], "K": Kreal, "cell": inf["cell"], "pos": inf["pos"], "frames": frames, "ppp": ppp,  # noqa: E731
-                    "rdelta": w, "H": cell["H"], "types": [s.particle_type for s in snaps.snapshots], "retyped_between_frames": retype,
+                    "rdelta": w, "H": inf["Hs"], "types": [s.particle_type for s in snaps.snapshots], "retyped_between_frames": retype,
                     "positions": [s.positions for s in snaps.snapshots] if inf["N"] <= 30 else "omitted(N>30)"}
     key = f"gr/K{min(Kreal, 6)}"
     ok, res = ctx.call(key, lambda: gr(snaps, ppp=ppp, rdelta=w, outputfile=outfile).getresults(), data=info)
     if not ok:
         ctx.case(f"K{Kreal}/{d}D/{inf['cell']}", nontrivial=False)
         return
-    ref, r, compare, relaxed, nb = rgr.reference([s.positions for s in snaps.snapshots], [s.particle_type for s in snaps.snapshots], cell["H"], ppp, w, np.diag(cell["H"]))
+    ref, r, compare, relaxed, nb = rgr.reference([s.positions for s in snaps.snapshots], [s.particle_type for s in snaps.snapshots], inf["Hs"], ppp, w, np.diag(cell["H"]))
     nz = bool(np.any(ref["gr"][1][compare] > 0))
     frac_rel = float((relaxed & compare).sum()) / max(1, int(compare.sum()))
     ctx.case(f"K{Kreal}/{d}D/{inf['cell']}", snaps.snapshots[0].positions, types, cell["H"], ppp, w,
